@@ -1160,11 +1160,11 @@ spectral_radius(const mpi::distributed_matrix<Backend> &A, int power_iters = 0)
 #pragma omp parallel
         {
             scalar_type emax = 0;
-            value_type  dia = math::identity<value_type>();
 
 #pragma omp for nowait
             for(ptrdiff_t i = 0; i < n; ++i) {
                 scalar_type s = 0;
+                value_type  dia = math::identity<value_type>();
 
                 for(ptrdiff_t j = A_loc.ptr[i], e = A_loc.ptr[i+1]; j < e; ++j) {
                     ptrdiff_t  c = A_loc.col[j];
